@@ -518,6 +518,51 @@ def p_retry(E, mark):
     E.Acct[3].bal += 1
 
 
+def p_obj_flush(E, mark):
+    # entity-level flush() (Entity.flush -> _save_ directly, not SessionCache.flush) as the first write: delete, update, create
+    a2 = E.Acct[3]
+    a2.delete(); a2.flush()
+    a1 = E.Acct[1]
+    a1.bal -= 50; a1.flush()
+    n = E.Acct(id=4, bal=400); n.flush()
+    E.Log(id=1, msg='object flushes')
+
+
+def p_obj_flush_update_first(E, mark):
+    a1 = E.Acct[1]
+    a1.bal -= 50; a1.flush()
+    E.Acct[2].bal += 50
+    n = E.Log(id=1, msg='u'); n.flush()
+    t = E.Tag[2]
+    t.delete(); t.flush()
+
+
+def p_raw_subselect(E, mark):
+    # raw statements whose text contains the word SELECT are writes all the same
+    E.db.execute("INSERT INTO Log (id, msg) SELECT 1, 'copied' WHERE EXISTS (SELECT 1 FROM Acct)")
+    E.Acct[1].bal -= 50
+    E.db.execute('UPDATE Acct SET bal = bal + 50 WHERE id = (SELECT min(id) + 1 FROM Acct)')
+    E.db.execute('DELETE FROM Tag WHERE id IN (SELECT id FROM Tag WHERE id = 2)')
+
+
+def p_get_connection_after_read(E, mark):
+    E.Acct[3]                                    # the session already has a connection, in autocommit mode
+    con = E.db.get_connection()
+    con.execute('UPDATE Acct SET bal = bal - 50 WHERE id = 1')
+    cur = con.cursor()
+    cur.execute('UPDATE Acct SET bal = bal + 50 WHERE id = 2')
+    E.Log(id=1, msg='raw after read')
+
+
+def p_select_then_raw(E, mark):
+    from pony.orm import select
+    n = select(a for a in E.Acct if a.bal > 0).count()
+    E.db.execute('UPDATE Acct SET bal = bal - 50 WHERE id = 1')
+    E.db.select('SELECT id FROM Acct')
+    E.db.execute('UPDATE Acct SET bal = bal + 50 WHERE id = 2')
+    E.Log(id=1, msg='mixed')
+
+
 def _retry_kw():
     from pony.orm import OperationalError
     return dict(retry=1, retry_exceptions=[OperationalError])
@@ -546,6 +591,11 @@ PROGRAMS = {
     'nested': (p_nested, [[('bal', 1, -50), ('bal', 2, 50), ('log+', 1, 'inner'), ('log+', 2, 'outer')]]),
     'for_update': (p_for_update, [[('bal', 1, -50), ('bal', 2, 50), ('log+', 1, 'locked')]]),
     'retry': (p_retry, [[('bal', 1, -50), ('bal', 2, 50), ('log+', 1, 'retry'), ('bal', 3, 1)]]),
+    'obj_flush': (p_obj_flush, [[('acct-', 3), ('bal', 1, -50), ('acct+', 4, 400), ('log+', 1, 'object flushes')]]),
+    'obj_flush_update_first': (p_obj_flush_update_first, [[('bal', 1, -50), ('bal', 2, 50), ('log+', 1, 'u'), ('tag-', 2)]]),
+    'raw_subselect': (p_raw_subselect, [[('log+', 1, 'copied'), ('bal', 1, -50), ('bal', 2, 50), ('tag-', 2)]]),
+    'get_connection_after_read': (p_get_connection_after_read, [[('bal', 1, -50), ('bal', 2, 50), ('log+', 1, 'raw after read')]]),
+    'select_then_raw': (p_select_then_raw, [[('bal', 1, -50), ('bal', 2, 50), ('log+', 1, 'mixed')]]),
 }
 
 
@@ -1040,6 +1090,96 @@ def retry(k1: int, k2: int, k3: int, kind1: int, kind2: int, kind3: int, mode: i
     """
     return ok(_scenario('retry', k1, k2, k3, kind1, kind2, kind3, mode, warm))
 HARNESSES.append('retry')
+
+
+def obj_flush(k1: int, k2: int, k3: int, kind1: int, kind2: int, kind3: int, mode: int, warm: bool) -> bool:
+    """
+    pre: 0 <= k1 <= KMAX
+    pre: (k2 == 0) or (0 < k1 < k2 <= K2MAX)
+    pre: (k3 == 0) or (0 < k2 < k3 <= K3MAX)
+    pre: 0 <= kind1 < KINDS and 0 <= kind2 < KINDS and 0 <= kind3 < KINDS
+    pre: (kind1 == 0 or k1 != 0) and (kind2 == 0 or k2 != 0) and (kind3 == 0 or k3 != 0)
+    pre: (kind1 != 1 or k2 == 0) and (kind2 != 1 or k3 == 0)
+    pre: FULL or k2 == 0 or (kind1 == 0 and kind2 <= 1)
+    pre: k3 == 0 or (kind1 == 0 and kind2 == 0 and kind3 <= 1)
+    pre: 0 <= mode < MODES
+    pre: WARM or not warm
+    post: _
+    """
+    return ok(_scenario('obj_flush', k1, k2, k3, kind1, kind2, kind3, mode, warm))
+HARNESSES.append('obj_flush')
+
+
+def obj_flush_update_first(k1: int, k2: int, k3: int, kind1: int, kind2: int, kind3: int, mode: int, warm: bool) -> bool:
+    """
+    pre: 0 <= k1 <= KMAX
+    pre: (k2 == 0) or (0 < k1 < k2 <= K2MAX)
+    pre: (k3 == 0) or (0 < k2 < k3 <= K3MAX)
+    pre: 0 <= kind1 < KINDS and 0 <= kind2 < KINDS and 0 <= kind3 < KINDS
+    pre: (kind1 == 0 or k1 != 0) and (kind2 == 0 or k2 != 0) and (kind3 == 0 or k3 != 0)
+    pre: (kind1 != 1 or k2 == 0) and (kind2 != 1 or k3 == 0)
+    pre: FULL or k2 == 0 or (kind1 == 0 and kind2 <= 1)
+    pre: k3 == 0 or (kind1 == 0 and kind2 == 0 and kind3 <= 1)
+    pre: 0 <= mode < MODES
+    pre: WARM or not warm
+    post: _
+    """
+    return ok(_scenario('obj_flush_update_first', k1, k2, k3, kind1, kind2, kind3, mode, warm))
+HARNESSES.append('obj_flush_update_first')
+
+
+def raw_subselect(k1: int, k2: int, k3: int, kind1: int, kind2: int, kind3: int, mode: int, warm: bool) -> bool:
+    """
+    pre: 0 <= k1 <= KMAX
+    pre: (k2 == 0) or (0 < k1 < k2 <= K2MAX)
+    pre: (k3 == 0) or (0 < k2 < k3 <= K3MAX)
+    pre: 0 <= kind1 < KINDS and 0 <= kind2 < KINDS and 0 <= kind3 < KINDS
+    pre: (kind1 == 0 or k1 != 0) and (kind2 == 0 or k2 != 0) and (kind3 == 0 or k3 != 0)
+    pre: (kind1 != 1 or k2 == 0) and (kind2 != 1 or k3 == 0)
+    pre: FULL or k2 == 0 or (kind1 == 0 and kind2 <= 1)
+    pre: k3 == 0 or (kind1 == 0 and kind2 == 0 and kind3 <= 1)
+    pre: 0 <= mode < MODES
+    pre: WARM or not warm
+    post: _
+    """
+    return ok(_scenario('raw_subselect', k1, k2, k3, kind1, kind2, kind3, mode, warm))
+HARNESSES.append('raw_subselect')
+
+
+def get_connection_after_read(k1: int, k2: int, k3: int, kind1: int, kind2: int, kind3: int, mode: int, warm: bool) -> bool:
+    """
+    pre: 0 <= k1 <= KMAX
+    pre: (k2 == 0) or (0 < k1 < k2 <= K2MAX)
+    pre: (k3 == 0) or (0 < k2 < k3 <= K3MAX)
+    pre: 0 <= kind1 < KINDS and 0 <= kind2 < KINDS and 0 <= kind3 < KINDS
+    pre: (kind1 == 0 or k1 != 0) and (kind2 == 0 or k2 != 0) and (kind3 == 0 or k3 != 0)
+    pre: (kind1 != 1 or k2 == 0) and (kind2 != 1 or k3 == 0)
+    pre: FULL or k2 == 0 or (kind1 == 0 and kind2 <= 1)
+    pre: k3 == 0 or (kind1 == 0 and kind2 == 0 and kind3 <= 1)
+    pre: 0 <= mode < MODES
+    pre: WARM or not warm
+    post: _
+    """
+    return ok(_scenario('get_connection_after_read', k1, k2, k3, kind1, kind2, kind3, mode, warm))
+HARNESSES.append('get_connection_after_read')
+
+
+def select_then_raw(k1: int, k2: int, k3: int, kind1: int, kind2: int, kind3: int, mode: int, warm: bool) -> bool:
+    """
+    pre: 0 <= k1 <= KMAX
+    pre: (k2 == 0) or (0 < k1 < k2 <= K2MAX)
+    pre: (k3 == 0) or (0 < k2 < k3 <= K3MAX)
+    pre: 0 <= kind1 < KINDS and 0 <= kind2 < KINDS and 0 <= kind3 < KINDS
+    pre: (kind1 == 0 or k1 != 0) and (kind2 == 0 or k2 != 0) and (kind3 == 0 or k3 != 0)
+    pre: (kind1 != 1 or k2 == 0) and (kind2 != 1 or k3 == 0)
+    pre: FULL or k2 == 0 or (kind1 == 0 and kind2 <= 1)
+    pre: k3 == 0 or (kind1 == 0 and kind2 == 0 and kind3 <= 1)
+    pre: 0 <= mode < MODES
+    pre: WARM or not warm
+    post: _
+    """
+    return ok(_scenario('select_then_raw', k1, k2, k3, kind1, kind2, kind3, mode, warm))
+HARNESSES.append('select_then_raw')
 
 
 if __name__ == '__main__':
